@@ -63,6 +63,10 @@ def lex(txt):
                         depth -= 1
                         if depth == 0: break
                     j += 1
+                if any(t_ in (("ident", "cfg"), ("ident", "cfg_attr")) for t_ in toks[i:j]):
+                    # conditional compilation INSIDE a body (a match arm, a statement, an expression): which text is compiled depends on
+                    # the features / the profile, and reading both twins as ordinary code would pick the first
+                    raise Unsupported("conditionally compiled code inside the body (%s)" % " ".join(t_[1] for t_ in toks[i:j + 1])[:120])
                 i = j + 1
                 continue
         out.append(toks[i])
@@ -1032,6 +1036,10 @@ class Sym:
             return self.ev(e[3], env)
         if k == "bin":
             a_, b_ = self.ev(e[2], env), self.ev(e[3], env)
+            if e[1] in ("+", "-", "*", "/") and a_[0] == "T":
+                # every sample-arithmetic operation that is EVALUATED counts, also one whose result is discarded on this path: on machine
+                # integers it can overflow (a weight incremented up front and thrown away once the window is full panics for N = T::MAX)
+                self.opcount = getattr(self, "opcount", {}); self.opcount[e[1]] = self.opcount.get(e[1], 0) + 1
             if e[1] in ("+", "-", "*", "/") and a_[0] == "T" and self.self0:
                 # sample arithmetic may panic for checked sample types: which receiver fields are already written at that moment
                 # is part of the effect signature (a state taken out `while` the arithmetic runs is lost when it panics)
